@@ -21,6 +21,9 @@ structure Dc where
   up : Bool := false              -- connection established (SDK side)
   reconTimer : Bool := false      -- reconnect_delay_timer armed
   stopTimer : Bool := false       -- stop_delay_timer armed
+  closing : Bool := false         -- an established connection was closed by the device (espconn_disconnect): until the SDK
+                                  -- reports the close (disconnect callback) the server's last segments may still arrive
+  stale : Bool := false           -- ghost: bytes of a closed connection sit in the receive staging buffer
   epoch : List DcFrame := []      -- ghost
   deriving Repr, DecidableEq
 
@@ -37,6 +40,7 @@ inductive DcEv
   | reconFire             -- reconnect_delay_timer fires: stop + start
   | stopFire              -- stop_delay_timer fires: stop
   | localEv               -- input/relay/timer event that makes the device want to talk
+  | lateData              -- SDK: data arrives on a connection the device has asked to close (no protocol instance reads it)
   deriving Repr, DecidableEq
 
 /-- first half of supla_esp_devconn_iterate: send the registration request once -/
@@ -46,38 +50,45 @@ def Dc.sendReg (s : Dc) : Dc :=
   else s
 
 def Dc.stop (s : Dc) : Dc :=
-  { s with registered := 0, started := false, srpc := false, up := false }
+  { s with registered := 0, started := false, srpc := false, up := false, closing := s.up || s.closing }
 
 /-- `none`: the SDK cannot deliver this event in this state (callback without a request, timer not
     armed, data on a closed connection) -/
 def Dc.step (s : Dc) : DcEv → Option Dc
   | .start => some { s with started := true, reconTimer := false }
   | .gotIp =>
-    if s.started ∧ ¬ s.srpc ∧ ¬ s.resolving then some { s with resolving := true, up := false }
+    if s.started ∧ ¬ s.srpc ∧ ¬ s.resolving then some { s with resolving := true, up := false, closing := s.up || s.closing }
     else some s
   | .dnsFound ok =>
     if s.resolving then
-      if ok then some { s with resolving := false, up := false, pending := true }
+      if ok then some { s with resolving := false, up := false, pending := true, closing := s.up || s.closing }
       else some { s with resolving := false }
     else none
   | .connectCb =>
-    if s.pending then some { s with pending := false, up := true, srpc := true, registered := 0, epoch := [] }
+    -- (SDK contract: the close of the previous connection is reported before the next one is established)
+    if s.pending ∧ ¬ s.closing then some { s with pending := false, up := true, srpc := true, registered := 0, epoch := [] }
     else none
   | .iterate => if s.srpc then some s.sendReg else none      -- the iterate timer runs only with a protocol instance
+  -- (a message is read by the protocol instance as long as there is one: on the established connection, or - where the device
+  -- closed the connection without freeing the instance, the second DNS answer - until the close is reported)
   | .regOk =>
-    if s.up ∧ s.srpc then some { s.sendReg with registered := 1 } else none
+    if (s.up ∨ s.closing) ∧ s.srpc then some { s.sendReg with registered := 1 } else none
   | .regRefused =>
-    if s.up ∧ s.srpc then some { s.sendReg with stopTimer := true } else none
+    if (s.up ∨ s.closing) ∧ s.srpc then some { s.sendReg with stopTimer := true } else none
   | .otherMsg =>
-    if s.up ∧ s.srpc then some s.sendReg else none
+    if (s.up ∨ s.closing) ∧ s.srpc then some s.sendReg else none
   | .disconnectCb =>
-    if s.up then some { s with up := false, reconTimer := s.started || s.reconTimer } else none
+    -- supla_esp_devconn_disconnect_cb clears both staging buffers
+    if s.up ∨ s.closing then some { s with up := false, closing := false, stale := false, reconTimer := s.started || s.reconTimer }
+    else none
   | .reconFire =>
     if s.reconTimer then some { s.stop with started := true, reconTimer := false } else none
   | .stopFire =>
     if s.stopTimer then some { s.stop with stopTimer := false } else none
   | .localEv =>
     if s.srpc ∧ s.registered = 1 ∧ s.up then some { s with epoch := s.epoch ++ [DcFrame.other] } else some s
+  | .lateData =>
+    if s.closing ∧ ¬ s.up ∧ ¬ s.srpc then some { s with stale := true } else none
 
 def Dc.run : Dc → List DcEv → Option Dc
   | s, [] => some s
